@@ -108,6 +108,7 @@ def check(F, rep, tier):
     pp = [x for x in F.find("<impl crate::version::zerv::core::Zerv>::process_post") if "bump::vars_secondary" in x.path]
     if rep.anchor("R03.4", "Zerv::process_post", pp):
         f = pp[0]; rep.fn_seen(f)
+        f = mir.inlined(F, f, depth=2, keep=("checked_bump", "reset_lower_precedence_components"))      # a shared override-then-bump helper is seen through
         adds = any((mir.callee(t) or "").endswith("checked_bump") for bi, t in f.calls())
         src_old = any((mir.callee(t) or "").endswith("checked_bump") and any("post" in o.path_str() for o in mir.trace_op(f, t[2][0], transparent=mir.TRANSPARENT + ("Option::<T>::unwrap_or",))) for bi, t in f.calls())
         if adds and src_old: rep.ok("R03.4", "process_post ADDS the bump to the tag's post (old + amount)", nontrivial_key="adds")
